@@ -515,5 +515,181 @@ mod verif_deflate_core {
     #[kani::unwind(5)]
     fn k_lz_literals4_roundtrip() { lz_literals_body::<4>(); }
 
+    // ------------------------------------------------------------------
+    // K-flushmark : the real flush_block with an empty block body, all 8 flush modes, symbolic bit alignment,
+    // symbolic configuration, first/later block. Oracle: an independent bit writer following RFC 1951 §3.2.3/3.2.4
+    // and RFC 1950 §2.2 (trailer).
+    // ------------------------------------------------------------------
+    struct RefBits { v: u128, n: u32 }
+    impl RefBits {
+        fn put(&mut self, bits: u32, len: u32) { self.v |= (bits as u128) << self.n; self.n += len; }
+        fn pad(&mut self) { self.n = (self.n + 7) & !7; }
+    }
+
+    /// CallbackOxide::flush_output contract model for K-flushmark (the real one is K-flushout's subject): reports
+    /// everything as delivered; the harness then inspects the bytes where flush_block put them (local_buf).
+    static FLUSHED_POS: core::sync::atomic::AtomicUsize = core::sync::atomic::AtomicUsize::new(usize::MAX);
+    fn model_cb_flush_output<'a>(this: &mut CallbackOxide<'a>, saved: SavedOutputBufferOxide, params: &mut ParamsOxide) -> i32 where 'a: 'a {
+        assert!(saved.local, "OBL:flushmark.small_output_uses_local_buffer [C02]");
+        FLUSHED_POS.store(saved.pos, core::sync::atomic::Ordering::Relaxed);
+        params.out_buf_ofs += saved.pos;
+        0
+    }
+
+    /// Small-buffer model of OutputBufferOxide::put_bits: the same arithmetic, but the flushed bytes go to a
+    /// 32-byte log instead of the 85 KiB buffer (symbolic-index writes into that buffer cost CBMC > 12 GB).
+    /// k_put_bits_model_equiv checks this model against the real put_bits on a small real buffer for all inputs;
+    /// V-def-bits (Verus) proves the real put_bits appends exactly the requested bits, unbounded.
+    const Z8: core::sync::atomic::AtomicU8 = core::sync::atomic::AtomicU8::new(0xAA);
+    static BYTE_LOG: [core::sync::atomic::AtomicU8; 32] = [Z8; 32];
+    fn model_put_bits<'a>(this: &mut OutputBufferOxide<'a>, bits: u32, len: u32) where 'a: 'a {
+        assert!(len <= 16 && bits <= ((1u32 << len) - 1u32), "OBL:flushmark.put_bits_pre_value_fits_len [C10]");
+        assert!(this.bits_in + len <= 32, "OBL:flushmark.put_bits_pre_no_bits_lost [C10]");
+        this.bit_buffer |= bits << this.bits_in;
+        this.bits_in += len;
+        // at most 4 whole bytes can be pending (bits_in <= 32): loop-free so that callers' loop bounds stay concrete
+        model_put_byte(this); model_put_byte(this); model_put_byte(this); model_put_byte(this);
+    }
+    fn model_put_byte<'a>(this: &mut OutputBufferOxide<'a>) where 'a: 'a {
+        if this.bits_in >= 8 {
+            assert!(this.inner_pos < 32, "OBL:flushmark.marker_fits_in_32_bytes [C12]");
+            BYTE_LOG[this.inner_pos].store(this.bit_buffer as u8, core::sync::atomic::Ordering::Relaxed);
+            this.inner_pos += 1;
+            this.bit_buffer >>= 8;
+            this.bits_in -= 8;
+        }
+    }
+    #[kani::proof]
+    #[kani::unwind(5)]
+    fn k_put_bits_model_equiv() {
+        let mut real_buf = [0xAAu8; 32];
+        let mut model_buf = [0xAAu8; 32];
+        let (bits, len, bb, bi, pos): (u32, u32, u32, u32, usize) = (kani::any(), kani::any(), kani::any(), kani::any(), kani::any());
+        kani::assume(len <= 16 && bits < (1 << len) && bi <= 16 && bi + len <= 32 && (bb as u64) < (1u64 << bi) && pos <= 27);
+        let mut a = OutputBufferOxide { inner: &mut real_buf, inner_pos: pos, local: true, bit_buffer: bb, bits_in: bi };
+        a.put_bits(bits, len);
+        let (ap, ab, ai) = (a.inner_pos, a.bit_buffer, a.bits_in);
+        let mut m = OutputBufferOxide { inner: &mut model_buf, inner_pos: pos, local: true, bit_buffer: bb, bits_in: bi };
+        model_put_bits(&mut m, bits, len);
+        assert!(ap == m.inner_pos && ab == m.bit_buffer && ai == m.bits_in, "OBL:bits.model_registers_equal_real_put_bits [C10 C12]");
+        let k: usize = kani::any();
+        kani::assume(k < 32);
+        if k >= pos && k < ap {
+            assert!(real_buf[k] == BYTE_LOG[k].load(core::sync::atomic::Ordering::Relaxed), "OBL:bits.model_bytes_equal_real_put_bits [C10 C12]");
+            // and they are the requested bits, LSB first, after the pending ones
+            let stream = (bb as u64) | ((bits as u64) << bi);
+            assert!(real_buf[k] as u64 == (stream >> (8 * (k - pos) as u32)) & 0xFF, "OBL:bits.put_bits_appends_lsb_first [C02 C10]");
+        } else {
+            assert!(real_buf[k] == 0xAA, "OBL:bits.put_bits_frame [C02]");
+        }
+        assert!(ai < 8 && (ab as u64) == ((bb as u64) | ((bits as u64) << bi)) >> (8 * (ap - pos) as u32), "OBL:bits.put_bits_carries_remainder [C02 C10]");
+        assert!(8 * (ap - pos) as u32 + ai == bi + len, "OBL:bits.put_bits_bit_count_conserved [C02 C10]");
+    }
+
+    /// The real flush_block, fully symbolic configuration / flush mode / bit alignment / block index / Adler value,
+    /// empty block body. put_bits -> small-buffer model, flush_output -> recording model, <[u16]>::fill -> std model.
+    #[kani::proof]
+    #[kani::unwind(5)]
+    #[kani::stub(<[u16]>::fill, model_fill)]
+    #[kani::stub(CallbackOxide::flush_output, model_cb_flush_output)]
+    #[kani::stub(OutputBufferOxide::put_bits, model_put_bits)]
+    fn k_flush_block_markers() {
+        let mut d = any_compressor!();
+        let flush = any_flush();
+        kani::assume(flush != TDEFLFlush::Finish || d.params.flags & TDEFL_FORCE_ALL_RAW_BLOCKS != 0);
+        flush_block_markers_body(&mut d, flush, kani::any(), kani::any());
+    }
+    /// Finish with a Huffman-coded (static) empty final block: start_static_block / optimize_table run for real
+    /// (concrete 288/32-iteration loops); the only symbolic-bounded loop (put_bits' byte flush) is in the model.
+    #[kani::proof]
+    #[kani::stub(CallbackOxide::flush_output, model_cb_flush_output)]
+    #[kani::stub(OutputBufferOxide::put_bits, model_put_bits)]
+    fn k_flush_block_finish_static() {
+        let mut d = any_compressor!();
+        kani::assume(d.params.flags & TDEFL_FORCE_ALL_RAW_BLOCKS == 0);
+        // bit alignment enumerated concretely: keeps compress_lz_codes' bit-draining loop bound concrete
+        let mut b = 0;
+        while b < 8 {
+            flush_block_markers_body(&mut d, TDEFLFlush::Finish, b, kani::any());
+            b += 1;
+        }
+    }
+
+    fn flush_block_markers_body(d: &mut CompressorOxide, flush: TDEFLFlush, bits_in0: u32, first: bool) {
+        let bb0: u32 = kani::any();
+        kani::assume(bits_in0 < 8 && bb0 < (1 << bits_in0));
+        d.params.saved_bits_in = bits_in0;
+        d.params.saved_bit_buffer = bb0;
+        d.params.out_buf_ofs = 0;
+        d.params.block_index = if first { 0 } else { kani::any() };
+        kani::assume(first || d.params.block_index != 0);
+        kani::assume(d.params.block_index < u32::MAX);
+        let bi0 = d.params.block_index;
+        d.params.adler32 = kani::any();
+        let adler = d.params.adler32;
+        let flags = d.params.flags;
+        let wbm = d.params.window_bits_max;
+        let inb = [0u8; 1];
+        let mut outb = [0xAAu8; 24];
+        let r;
+        {
+            let mut cb = CallbackOxide::new_callback_buf(&inb[..0], &mut outb[..]);
+            r = flush_block(d, &mut cb, flush);
+        }
+        assert!(matches!(r, Ok(0)), "OBL:flushmark.ok_and_drained_when_room [C02 C12]");
+        let zlib = flags & TDEFL_WRITE_ZLIB_HEADER != 0;
+        let raw = flags & TDEFL_FORCE_ALL_RAW_BLOCKS != 0;
+        // ---- reference bit stream ----
+        let mut e = RefBits { v: bb0 as u128, n: bits_in0 };
+        if zlib && first {
+            let h = header_from_flags(flags, wbm); // validity and window field: K-zhdr
+            e.put(h[0] as u32, 8);
+            e.put(h[1] as u32, 8);
+        }
+        if flush == TDEFLFlush::Finish {
+            e.put(1, 1); // BFINAL only on Finish
+            if raw { e.put(0, 2); e.pad(); e.put(0, 16); e.put(0xFFFF, 16); } else { e.put(1, 2); e.put(0, 7); }
+        }
+        let aligned = e.n & 7 == 0;
+        match flush {
+            TDEFLFlush::Finish => {
+                e.pad();
+                if zlib { e.put(adler >> 24, 8); e.put((adler >> 16) & 0xFF, 8); e.put((adler >> 8) & 0xFF, 8); e.put(adler & 0xFF, 8); }
+            }
+            TDEFLFlush::Partial => { e.put(0, 1); e.put(1, 2); e.put(0, 7); }
+            TDEFLFlush::PartialOpt => { if !aligned { e.put(0, 1); e.put(1, 2); e.put(0, 7); } }
+            TDEFLFlush::Sync | TDEFLFlush::Full => { e.put(0, 3); e.pad(); e.put(0, 16); e.put(0xFFFF, 16); }
+            TDEFLFlush::SyncOpt => { if !aligned { e.put(0, 3); e.pad(); e.put(0, 16); e.put(0xFFFF, 16); } }
+            TDEFLFlush::None | TDEFLFlush::NoSync => {}
+        }
+        let nbytes = (e.n / 8) as usize;
+        assert!(FLUSHED_POS.load(core::sync::atomic::Ordering::Relaxed) == nbytes, "OBL:flushmark.emits_exactly_the_expected_number_of_bytes [C09 C10 C12]");
+        assert!(d.params.saved_bits_in == e.n & 7 && d.params.saved_bit_buffer as u128 == e.v >> (8 * nbytes as u32), "OBL:flushmark.partial_byte_carried_to_next_block [C02 C12]");
+        let lb = |i: usize| BYTE_LOG[i].load(core::sync::atomic::Ordering::Relaxed);
+        let k: usize = kani::any();
+        kani::assume(k < 24);
+        if k < nbytes {
+            assert!(lb(k) as u128 == (e.v >> (8 * k as u32)) & 0xFF, "OBL:flushmark.bytes_equal_rfc_reference [C09 C10 C12]");
+        } else {
+            assert!(lb(k) == 0xAA, "OBL:flushmark.nothing_emitted_past_reported_count [C02 C12]");
+        }
+        assert!(outb[k] == 0xAA, "OBL:flushmark.caller_buffer_written_only_through_flush_output [C02 C08]");
+        if flush == TDEFLFlush::Sync || flush == TDEFLFlush::Full {
+            assert!(d.params.saved_bits_in == 0 && nbytes >= 4 && lb(nbytes - 4) == 0 && lb(nbytes - 3) == 0 && lb(nbytes - 2) == 0xFF && lb(nbytes - 1) == 0xFF,
+                "OBL:flushmark.sync_full_end_byte_aligned_with_empty_stored_marker [C12]");
+        }
+        if flush == TDEFLFlush::None || flush == TDEFLFlush::NoSync {
+            assert!(nbytes == (if zlib && first { 2 } else { 0 }) && d.params.saved_bits_in == bits_in0 && ((zlib && first) || d.params.saved_bit_buffer == bb0),
+                "OBL:flushmark.nosync_and_none_emit_nothing_but_the_header [C12]");
+        }
+        if flush == TDEFLFlush::Finish {
+            assert!(d.params.saved_bits_in == 0, "OBL:flushmark.finish_ends_byte_aligned [C09]");
+        }
+        assert!(d.params.block_index == bi0 + 1, "OBL:flushmark.block_index_incremented_so_header_written_once [C09]");
+        assert!(d.lz.code_position == 1 && d.lz.flag_position == 0 && d.lz.num_flags_left == 8 && d.lz.total_bytes == 0, "OBL:flushmark.lz_buffer_reset [C02]");
+        kani::cover!(zlib && first, "COV:flushmark.header_emitted");
+        kani::cover!(!aligned, "COV:flushmark.unaligned");
+    }
+
     //@PLAYBACK@
 }
